@@ -23,7 +23,7 @@ MINIMA = {'non_opening_frames_checked': 100000, 'continuation_chains_judged': 30
 
 
 def n_cases(tier):
-    return 1200 if tier == 'quick' else 20000
+    return 1200 if tier == 'quick' else 2400
 
 
 PATTERNS = ['churn-es', 'churn-rst', 'priority-spray', 'wu-rst-closed', 'unknown-frames', 'unknown-settings', 'continuation',
@@ -72,7 +72,7 @@ def tracked(c):
 def run_case(idx, rng, tier, rep):
     pat = PATTERNS[idx % len(PATTERNS)]
     e_client = rng.random() < 0.4
-    nframes = 1500 if tier == 'quick' else rng.choice([3000, 20000, 150000])
+    nframes = 1500 if tier == 'quick' else rng.choice([3000, 20000, 60000])
     if idx % 600 == 1:
         # reach the closed-stream memory cap for real: more than MAX_CLOSED_STREAMS streams opened and closed
         pat = rng.choice(['churn-es', 'churn-rst'])
